@@ -231,7 +231,7 @@ def lemma_no_shared_defaults():
     return [st]
 
 
-L_NO_SHARED_DEFAULTS = Lemma("grammar.no-shared-defaults", lemma_no_shared_defaults)
+L_NO_SHARED_DEFAULTS = Lemma("grammar.no-shared-defaults", lemma_no_shared_defaults, advisory=True, replay={"module": "stateful", "task": "C01"})
 
 
 # ------------------------------------------------------------------------------ parse actions
